@@ -195,6 +195,20 @@ where
             let param = ValidationErrorKind::IndexMagicByte;
             return Err(Error::validation(param, "Index magic byte is not valid").into());
         }
+        let records_size = (self.header.records_count as u64).saturating_mul(self.header.record_header_size as u64);
+        let expected_size = self.metadata.leaves_offset.saturating_add(records_size);
+        if self.file.size() != expected_size {
+            let param = ValidationErrorKind::IndexChecksum;
+            return Err(Error::validation(
+                param,
+                format!(
+                    "Index file size is {}, but its header describes {} bytes",
+                    self.file.size(),
+                    expected_size
+                ),
+            )
+            .into());
+        }
         Ok(())
     }
 
